@@ -53,13 +53,17 @@ func main() {
 	}
 	c := vlib.Start("C02")
 	scratch, cleanup := vlib.Scratch("c02")
-	defer cleanup()
 	o := &orch{c: c, scratch: scratch, disabled: map[string]map[string]string{}, varOff: map[string]map[string]string{}}
 	if replay != nil {
 		o.runReplay(replay)
 	} else {
 		o.run()
 	}
+	cleanup()
+	c.Set("timing_platform_knobs_varied", []string{
+		"GPU type (r9nano / mi300a; register scoreboard off / on is fixed by the GPU type)", "CUs per shader array {1,2,4}", "shader arrays {1,2,4,8}",
+		"L2 size {16 KiB, 64 KiB, default}", "memory banks / L2 slices {1,4,8,16}", "bank interleaving {128 B, 4 KiB}", "GPU clock {500 MHz, default}",
+		"number of GPUs {1,2}, kernels on the GPU that owns the data or on the other one (RDMA)", "DMA vs magic memory copy"})
 	c.Finish(vlib.FinishOpts{
 		Rule: "a comparison = one program (generated from vlib/gcnasm or shipped) run in emulation (twice, self-stability) and on one timing platform variant, " +
 			"every device buffer read back with MemCopyD2H and every wavefront's (pc, format, opcode) sequence compared; " +
